@@ -23,7 +23,7 @@ RULE = ("one evaluation = one streamed computation (bnp.mean / bincount / histog
         "(n <= 40). A case is non-trivial if the stream had >= 2 chunks; distinct = distinct tuples (family.op, "
         "source kind, number of chunks bucket, relation of the cuts to the key groups [inside a group / right after "
         "a group / single-entry chunk], fault kind)")
-BUDGET = {"quick": (3000, 40), "thorough": (40000, 900)}
+BUDGET = {"quick": (4000, 40), "thorough": (60000, 900)}
 ASSUMPTIONS = ["the reference is bionumpy's own result for the same public call on the whole table (never a model of "
                "the 'right' number); if it raises the run is inconclusive",
                "tracks are compared as dense per-chromosome arrays (two run segmentations of one array are one value)",
